@@ -140,3 +140,58 @@ def arg_or_kw(call, pos, name):
     if pos is not None and pos < len(call.args) and not any(isinstance(a, ast.Starred) for a in call.args[:pos + 1]):
         return call.args[pos]
     return None
+
+
+def local_names(fnode):
+    """Names bound in the function (any scope below it) that are not parameters: their spelling is not part of the interface."""
+    a = fnode.args
+    params = {x.arg for x in a.posonlyargs + a.args + a.kwonlyargs}
+    if a.vararg:
+        params.add(a.vararg.arg)
+    if a.kwarg:
+        params.add(a.kwarg.arg)
+    out = set()
+    for n in ast.walk(fnode):
+        if isinstance(n, ast.Name) and isinstance(n.ctx, (ast.Store, ast.Del)):
+            out.add(n.id)
+        elif isinstance(n, ast.ExceptHandler) and n.name:
+            out.add(n.name)
+    return out - params
+
+
+class _Blank(ast.NodeTransformer):
+    def __init__(self, names):
+        self.names = names
+
+    def visit_Name(self, n):
+        return ast.copy_location(ast.Name("_" if n.id in self.names else n.id, n.ctx), n)
+
+
+def keytext(f, node):
+    """Source text of `node` for use inside an obligation key: locals of the enclosing function are blanked (`_`), so that the
+    key of a construct does not change when a local is renamed.  `f` is a FuncInfo or a FunctionDef node."""
+    import copy
+    fnode = getattr(f, "node", f)
+    if isinstance(node, str):
+        try:
+            body = ast.parse(node).body
+        except SyntaxError:
+            return node
+        if len(body) != 1:
+            return node
+        node = body[0].value if isinstance(body[0], ast.Expr) else body[0]
+    return ast.unparse(_Blank(local_names(fnode)).visit(copy.deepcopy(node)))
+
+
+class _Alpha(ast.NodeTransformer):
+    def __init__(self, ren):
+        self.ren = ren
+
+    def visit_Name(self, n):
+        return ast.copy_location(ast.Name(self.ren.get(n.id, n.id), n.ctx), n)
+
+
+def alpha(node, ren):
+    """Copy of node with the locals in `ren` renamed to role names: comparisons are made on roles, never on spellings."""
+    import copy
+    return ast.fix_missing_locations(_Alpha(ren).visit(copy.deepcopy(node)))
